@@ -280,10 +280,17 @@ static void op_copy(FILE *out, const char *id, char **a, int n) {
     char rets[256] = "", same[256] = ""; int k = 0;
     char *save = NULL;
     for(char *s = strtok_r(a[2], ",", &save); s && k < 100; s = strtok_r(NULL, ",", &save), k++) {
+        /* <path>[@<history>]: what happened to the SOURCE context before the copy: a 0/1 string = its chunks marked so (as
+         * zck_find_matching_chunks or an earlier scan would have left them), v = zck_validate_checksums, f = zck_find_valid_chunks */
+        char *hist = strchr(s, '@');
+        if(hist) *hist++ = 0;
         size_t bl; unsigned char *before = slurp(s, &bl);
         int sfd = open(s, O_RDONLY);
         zckCtx *src = zck_create();
         if(sfd < 0 || !zck_init_read(src, sfd)) { rets[k] = 'e'; same[k] = '1'; zck_free(&src); if(sfd >= 0) close(sfd); free(before); continue; }
+        if(hist && strcmp(hist, "v") == 0) zck_validate_checksums(src);
+        else if(hist && strcmp(hist, "f") == 0) zck_find_valid_chunks(src);
+        else if(hist) set_flags(src, hist);
         rets[k] = zck_copy_chunks(src, tgt) ? '1' : '0';
         zck_free(&src); close(sfd);
         size_t al; unsigned char *after = slurp(s, &al);
